@@ -23,6 +23,10 @@ impl Prop for C13Prop {
             Tier::Thorough => 1_000_000,
         }
     }
+    fn fixed_cases(&self, _tier: Tier) -> Vec<Case> {
+        let c = |shape: usize, us: u64| Case { req: format!("c13t {} {}", shape, us), in_domain: true, nontrivial: true, tags: vec!["second-thread", "fixed"] };
+        vec![c(13, 1_200_000), c(11, 150_000), c(12, 150_000), c(9, 500), c(6, 500)]
+    }
     fn generate(&self, rng: &mut Rng, _tier: Tier) -> Case {
         if rng.chance(1, 3) {
             return gen_structured_halt(rng);
@@ -33,8 +37,8 @@ impl Prop for C13Prop {
             if rng.chance(1, 5) {
                 return Case { req: format!("c13t {} {}", 100 + rng.below(CHILD_LOOPS.len()), 1 + rng.below(20)), in_domain: true, nontrivial: true, tags: vec!["second-thread", "child-process"] };
             }
-            let shape = rng.below(11);
-            let delay_us = rng.below(3000);
+            let shape = rng.below(13);
+            let delay_us = if shape >= 11 { 20_000 + rng.below(200_000) } else { rng.below(3000) };
             return Case { req: format!("c13t {} {}", shape, delay_us), in_domain: true, nontrivial: true, tags: vec!["second-thread"] };
         }
         if rng.chance(1, 150) {
@@ -187,7 +191,7 @@ fn gen_structured_halt(rng: &mut Rng) -> Case {
 
 /// loops that never end by themselves: goto, while over a value, while over a command
 /// condition (nested evaluator), for-in over a large range with an inner if
-const LOOPS: [&str; 11] = [
+const LOOPS: [&str; 14] = [
     ":top\ntick\ngoto :top\n",
     "while true\n  tick\nend\n",
     "while not tick\n  x = set 1\nend\n",
@@ -205,6 +209,12 @@ const LOOPS: [&str; 11] = [
     "exit_on_error true\nfn spin\n  while true\n    tick\n  end\nend\nif spin\nend\n",
     "exit_on_error true\nfn spin\n  while true\n    tick\n  end\nend\nwhile spin\nend\n",
     "exit_on_error true\nfn spin\n  while true\n    tick\n  end\nend\nx = not spin\n",
+    // the flag comes up while a SCRIPT-IMPLEMENTED command (called with an output variable) runs its
+    // internal loop in the nested evaluator: being cut short is not a failure of that command
+    "r = range 0 200000\n:again\nx = array_contains ${r} zz\ngoto :again\n",
+    "r = range 0 200000\n:again\nx = array_join ${r} ,\ngoto :again\n",
+    // a long `sleep` in flight (fixed case only: the flag is raised 1.2 s into a sleep of 2.5 s)
+    "sleep 2500\n",
 ];
 /// jump-only loops of the NESTED evaluator (labels are not available there; a function call and a
 /// function's `end` are jumps): two functions calling each other for ever.  Every round pushes a
